@@ -4,6 +4,7 @@ package main
 // canonical re-encoding, rate tables, enum helper totality.
 
 import (
+	"bytes"
 	"fmt"
 	"strings"
 
@@ -300,6 +301,76 @@ func c10(c *h.Ctx) {
 			}
 		}
 		_ = wants
+	}
+
+	// 0b. remux with edits on ONE long-lived packager: decode a tag, change the frame (another payload of the same
+	// length, of another length, another composition time), encode it again with the same packager — the result is
+	// what a fresh packager encodes for the frame as it is NOW; nothing of the tag it came from may come back.
+	{
+		vp, _ := flv.NewVideoPackager()
+		ap, _ := flv.NewAudioPackager()
+		for i := 0; i < c.N(120, 3000); i++ {
+			if i%2 == 0 {
+				src := flv.NewVideoFrame()
+				src.CodecID, src.FrameType, src.Trait, src.CTS, src.Raw = flv.VideoCodec(r.Pick(7, 12, 2, 4)), flv.VideoFrameType(1+r.Intn(5)), flv.VideoFrameTrait(r.Intn(2)), int32(r.Pick(0, 1, 500)), r.Bytes(r.Intn(10))
+				if src.CodecID != 7 && src.CodecID != 12 {
+					src.Trait, src.CTS = 0, 0
+				}
+				tag, err := vp.Encode(src)
+				if err != nil {
+					continue
+				}
+				f, err := vp.Decode(tag)
+				if err != nil {
+					continue
+				}
+				edit := r.Intn(3)
+				switch edit {
+				case 0:
+					f.Raw = r.Bytes(len(f.Raw)) // same length, other bytes, another slice
+				case 1:
+					f.Raw = r.Bytes(1 + r.Intn(12))
+				default:
+					if f.CodecID == 7 || f.CodecID == 12 {
+						f.CTS = int32(r.Intn(1 << 20))
+					} else {
+						f.Raw = r.Bytes(len(f.Raw))
+					}
+				}
+				got, e1 := vp.Encode(f)
+				fp, _ := flv.NewVideoPackager()
+				cp := *f
+				want, e2 := fp.Encode(&cp)
+				in := fmt.Sprintf("video remux: Decode(%s); edit %d -> raw=%s cts=%d; Encode on the same packager", h.Hex(tag), edit, h.Hex(f.Raw), f.CTS)
+				c.Hold((e1 == nil) == (e2 == nil) && bytes.Equal(got, want), "encode.frame_as_it_is_now", in, h.Hex(got), h.Hex(want))
+				c.Case("remux/video", in, true)
+			} else {
+				src := &flv.AudioFrame{SoundFormat: flv.AudioCodec(r.Pick(10, 13, 2)), SoundRate: 3, SoundSize: 1, SoundType: 1, Raw: r.Bytes(1 + r.Intn(10))}
+				if src.SoundFormat == 13 {
+					src.SoundRate = 0
+				}
+				tag, err := ap.Encode(src)
+				if err != nil {
+					continue
+				}
+				f, err := ap.Decode(tag)
+				if err != nil {
+					continue
+				}
+				if r.Bool() {
+					f.Raw = r.Bytes(len(f.Raw))
+				} else {
+					f.Raw = r.Bytes(1 + r.Intn(12))
+				}
+				got, e1 := ap.Encode(f)
+				fp, _ := flv.NewAudioPackager()
+				cp := *f
+				want, e2 := fp.Encode(&cp)
+				in := fmt.Sprintf("audio remux: Decode(%s); raw -> %s; Encode on the same packager", h.Hex(tag), h.Hex(f.Raw))
+				c.Hold((e1 == nil) == (e2 == nil) && bytes.Equal(got, want), "encode.frame_as_it_is_now", in, h.Hex(got), h.Hex(want))
+				c.Case("remux/audio", in, true)
+			}
+		}
 	}
 
 	// 0. fixed regression cases (F7, F8, F9) — the formerly failing inputs.
